@@ -174,7 +174,7 @@ def category(name: str) -> CS:
 
 class Rx:
     """kind: 'empty' (no string), 'eps', 'set' (cs), 'cat' (items), 'alt' (items), 'star' (item),
-    'end' (end-of-line assertion, zero width)."""
+    'end' (end-of-line assertion, zero width), 'lb' (one-character lookbehind: cs, items=(negated,))."""
     __slots__ = ('kind', 'cs', 'items')
 
     def __init__(self, kind, cs=None, items=()):
@@ -259,6 +259,7 @@ class ParsedPattern:
         self.n_groups = self.tree.state.groups - 1
         self.has_end_assertion = False
         self.has_begin_assertion = False
+        self.has_lookbehind = False
         self.rx = self._conv_seq(self.tree)
 
     # top-level alternatives as (group name or None, Rx)
@@ -295,6 +296,20 @@ class ParsedPattern:
 
     def _conv_seq(self, sub) -> Rx:
         return Rx.cat([self._conv(op, av) for op, av in sub])
+
+    @staticmethod
+    def lazy_repeats(sub) -> int:
+        n = 0
+        for op, av in sub:
+            if op is sre_c.MIN_REPEAT:
+                n += 1 + ParsedPattern.lazy_repeats(av[2])
+            elif op is sre_c.MAX_REPEAT:
+                n += ParsedPattern.lazy_repeats(av[2])
+            elif op is sre_c.SUBPATTERN:
+                n += ParsedPattern.lazy_repeats(av[3])
+            elif op is sre_c.BRANCH:
+                n += sum(ParsedPattern.lazy_repeats(b) for b in av[1])
+        return n
 
     def _conv(self, op, av) -> Rx:
         if op is sre_c.LITERAL:
@@ -341,6 +356,14 @@ class ParsedPattern:
             raise AnalysisError(f'regex assertion {av} is not modelled')
         if op is sre_c.CATEGORY:
             return Rx.chars(self._category(av))
+        if op in (sre_c.ASSERT, sre_c.ASSERT_NOT):
+            direction, sub = av
+            inner = self._conv_seq(sub)
+            if direction == -1 and inner.kind == 'set':
+                self.has_lookbehind = True
+                return Rx('lb', cs=inner.cs, items=(op is sre_c.ASSERT_NOT,))
+            raise AnalysisError('only one-character lookbehind assertions are modelled '
+                                f'(pattern {self.pattern!r})')
         raise AnalysisError(f'regex construct {op} is not modelled (pattern {self.pattern!r})')
 
     def _case(self, r):
@@ -372,12 +395,14 @@ class NFA:
         self.n = 0
         self.eps: List[List[int]] = []
         self.tr: List[List[Tuple[CS, int]]] = []
+        self.asrt: List[List[Tuple[CS, bool, int]]] = []     # lookbehind edges: (set, negated, dst)
         self.start = 0
         self.accept: Set[int] = set()
 
     def new(self) -> int:
         self.eps.append([])
         self.tr.append([])
+        self.asrt.append([])
         self.n += 1
         return self.n - 1
 
@@ -399,6 +424,8 @@ class NFA:
             self.eps[s].append(f)
         elif k == 'set':
             self.tr[s].append((rx.cs, f))
+        elif k == 'lb':
+            self.asrt[s].append((rx.cs, bool(rx.items[0]), f))
         elif k == 'cat':
             cur = s
             for i, it in enumerate(rx.items):
@@ -421,7 +448,10 @@ class NFA:
         else:
             raise AnalysisError(f'rx kind {k}')
 
-    def closure(self, states: Iterable[int]) -> FrozenSet[int]:
+    def closure(self, states: Iterable[int], last: Optional[CS] = None) -> FrozenSet[int]:
+        """Epsilon closure.  `last` is the (minterm block of the) character consumed just before; it
+        decides one-character lookbehind edges.  At the start of a token (last is None) a lookbehind
+        would look outside the token: not modelled."""
         seen = set(states)
         stack = list(seen)
         while stack:
@@ -430,10 +460,17 @@ class NFA:
                 if r not in seen:
                     seen.add(r)
                     stack.append(r)
+            for cs, neg, r in self.asrt[q]:
+                if last is None:
+                    raise AnalysisError('lookbehind assertion at the start of a token is not modelled')
+                holds = (last.iv[0][0] in cs)
+                if holds != neg and r not in seen:
+                    seen.add(r)
+                    stack.append(r)
         return frozenset(seen)
 
     def charsets(self) -> List[CS]:
-        return [cs for lst in self.tr for cs, _ in lst]
+        return [cs for lst in self.tr for cs, _ in lst] + [cs for lst in self.asrt for cs, _, _ in lst]
 
 
 def minterms(sets: Sequence[CS]) -> List[CS]:
@@ -490,7 +527,7 @@ class DFA:
                     moves.setdefault(bi, set()).add(dst)
             row = []
             for bi in range(len(blocks)):
-                T = nfa.closure(moves.get(bi, ())) if bi in moves else frozenset()
+                T = nfa.closure(moves.get(bi, ()), blocks[bi]) if bi in moves else frozenset()
                 if T not in index:
                     index[T] = len(order)
                     order.append(T)
@@ -528,10 +565,13 @@ class DFA:
 class Lang:
     """A regular language with the operations the rules need.  Immutable; built from Rx."""
 
-    def __init__(self, rx: Rx, name: str = ''):
+    def __init__(self, rx: Rx, name: str = '', shortest: bool = False):
         self.rx = rx
         self.name = name
         self.nfa = NFA.of(rx)
+        # shortest=True: the language of *matched texts* of a lazy pattern, i.e. the members that have
+        # no proper prefix in the language
+        self.shortest = shortest
 
     # -- constructions -----------------------------------------------------------------------
     @staticmethod
@@ -550,7 +590,18 @@ class Lang:
 
     def _dfa(self, extra: Sequence[CS] = ()) -> DFA:
         blocks = minterms(self.nfa.charsets() + list(extra))
-        return DFA.from_nfa(self.nfa, blocks)
+        return self._dfa_on(blocks)
+
+    def _dfa_on(self, blocks: List[CS]) -> DFA:
+        d = DFA.from_nfa(self.nfa, blocks)
+        if self.shortest:
+            dead = d.n()
+            d.trans.append([dead] * len(blocks))
+            d.accept.append(False)
+            for st in range(dead):
+                if d.accept[st]:
+                    d.trans[st] = [dead] * len(blocks)
+        return d
 
     def is_empty(self) -> bool:
         d = self._dfa()
@@ -657,7 +708,7 @@ class Lang:
                 for cs, dst in self.nfa.tr[q]:
                     if ch in cs:
                         nxt.add(dst)
-            cur = self.nfa.closure(nxt)
+            cur = self.nfa.closure(nxt, CS.of(ch))
             if not cur:
                 return False
         return bool(cur & self.nfa.accept)
@@ -679,7 +730,7 @@ def _reachable(d: DFA) -> List[bool]:
 def _product_witness(A: Lang, B: Lang, want) -> Optional[str]:
     from collections import deque
     blocks = minterms(A.nfa.charsets() + B.nfa.charsets())
-    da, db = DFA.from_nfa(A.nfa, blocks), DFA.from_nfa(B.nfa, blocks)
+    da, db = A._dfa_on(blocks), B._dfa_on(blocks)
     start = (da.start, db.start)
     prev: Dict[Tuple[int, int], Optional[Tuple[Tuple[int, int], int]]] = {start: None}
     q = deque([start])
